@@ -26,6 +26,7 @@ type histOpts struct {
 	overrides   bool
 	settings    bool
 	migration   bool
+	someOverrides bool // node override annotations (also malformed ones) in a third of the worlds
 	stratEdits  bool // user edits of canary replicas / strategy although not a convergence profile
 }
 
@@ -124,6 +125,13 @@ func genHistory(r *rand.Rand, tier string, o histOpts) *World {
 	if o.overrides {
 		w.Extra["overrides"] = "1"
 	}
+	if o.twoEDS && len(w.EDS) == 2 && w.EDS[0].NS == w.EDS[1].NS && chance(r, 0.4) {
+		// a template written from a dump of a pod of the other ExtendedDaemonSet: it carries the
+		// other one's ownership labels, which the controller must overwrite
+		for _, t := range w.EDS[0].Templates {
+			t.Labels = map[string]string{edsv1.ExtendedDaemonSetNameLabelKey: w.EDS[1].Name, edsv1.ExtendedDaemonSetReplicaSetNameLabelKey: w.EDS[1].Name + "-dumped"}
+		}
+	}
 	if o.migration && chance(r, 0.5) {
 		w.EDS[0].OldDS = "legacy"
 		w.Foreign = chance(r, 0.7)
@@ -159,6 +167,12 @@ func genHistory(r *rand.Rand, tier string, o histOpts) *World {
 		cfg.KubeletSkewSec = pick(r, 0, 0, 1, -2)
 	}
 	cfg.StrategyEdits = (o.c02 || o.stratEdits) && chance(r, 0.3)
+	cfg.Evictions = chance(r, 0.3)
+	if o.someOverrides && chance(r, 0.3) {
+		w.Extra["overrides"] = "1"
+		w.Extra["malformed"] = "1"
+		cfg.NodeChurn = true
+	}
 	cfg.QuiesceRounds = 4
 	if o.c02 {
 		w.Extra["c02"] = "1"
@@ -189,7 +203,7 @@ func histProfile(name string, decide []string, quick, thorough int, o histOpts, 
 
 func init() {
 	register(histProfile("C12", []string{"C12"}, 1200, 50000, histOpts{maxNodes: 4, pCanary: 0.4, fancy: []float64{0, 0.3}, faults: true, twoEDS: true, migration: true}, "C12.foreign-listed", "C12.write"))
-	register(histProfile("C02", []string{"C02"}, 800, 40000, histOpts{maxNodes: 6, pCanary: 0.5, fancy: []float64{0, 0.3, 0.7}, faults: true, sane: true, c02: true, migration: true}, "C02.converged"))
+	register(histProfile("C02", []string{"C02"}, 800, 40000, histOpts{maxNodes: 6, pCanary: 0.5, fancy: []float64{0, 0.3, 0.7}, faults: true, sane: true, c02: true, migration: true, someOverrides: true}, "C02.converged"))
 }
 
 // ---------------------------------------------------------------------------------------
@@ -606,6 +620,10 @@ func bodyC19(s *Sim) {
 		if !condPaused && e.Status.State != edsv1.ExtendedDaemonSetStatusStateCanary {
 			obey(cmd, "state is %q, expected Canary (the pause was a user pause)", e.Status.State)
 		}
+		if condPaused && e.Status.State == edsv1.ExtendedDaemonSetStatusStateCanaryPaused && e.Status.Canary != nil && e.Status.Canary.ReplicaSet == canaryERS &&
+			annTrue(e.Annotations, edsv1.ExtendedDaemonSetCanaryUnpausedAnnotationKey) && !annTrue(e.Annotations, edsv1.ExtendedDaemonSetCanaryPausedAnnotationKey) {
+			obey("unpause-auto-paused", "the canary had paused itself, the command set canary-unpaused=true, and the state is still %q", e.Status.State)
+		}
 	case "canary-validate":
 		if e.Status.ActiveReplicaSet != canaryERS {
 			obey(cmd, "active replica set is %s, the validated canary was %s", e.Status.ActiveReplicaSet, canaryERS)
@@ -689,6 +707,14 @@ func genC08(r *rand.Rand, tier string, idx int) *World {
 		}
 		c.CanaryTimeout = ""
 		c.NodeSelector = nil
+		if chance(r, 0.5) {
+			// the pause to lift is an automatic one (a restarting canary pod)
+			w.Extra["autoPaused"] = "1"
+			c.AutoPauseEnabled = bptr(true)
+			c.AutoPauseMaxRestarts = i32(1)
+			c.AutoFailEnabled = bptr(false)
+			c.Replicas = pick(r, "2", "3")
+		}
 	}
 	return w
 }
@@ -843,6 +869,27 @@ func bodyC08(s *Sim) {
 		// pause it (user), then take canary pods away, then unpause
 		how := pick(r, "annotation", "cli", "already")
 		paused := annTrue(e.Annotations, edsv1.ExtendedDaemonSetCanaryPausedAnnotationKey) || ersCondTrue(&cr.Status, edsv1.ConditionTypeCanaryPaused)
+		keep := ""
+		if !paused && s.W.Extra["autoPaused"] == "1" {
+			// a canary pod restarts twice: the canary pauses itself
+			for _, p := range s.Store.Pods() {
+				if letterOfPod(p) == letterOfTpl(&cr.Spec.Template) && isDaemonPod(p, def.NS, def.Name) && !terminating(p) {
+					s.kSettle(p)
+					if pp := s.Store.GetPod(p.Namespace, p.Name); pp != nil && len(pp.Status.ContainerStatuses) > 0 {
+						s.kRestart(pp, "Error")
+						s.kRestart(s.Store.GetPod(p.Namespace, p.Name), "Error")
+						s.kSettle(s.Store.GetPod(p.Namespace, p.Name))
+						keep = p.Name
+						s.Stats.NonVacuous["C08.auto-paused"]++
+						break
+					}
+				}
+			}
+			if keep != "" {
+				s.Round(r)
+				paused = true
+			}
+		}
 		if !paused {
 			if how == "cli" {
 				s.RunCLI("canary-pause", key)
@@ -855,7 +902,7 @@ func bodyC08(s *Sim) {
 		letter := letterOfTpl(&cr.Spec.Template)
 		removed := 0
 		for _, p := range s.Store.Pods() {
-			if letterOfPod(p) == letter && isDaemonPod(p, def.NS, def.Name) && r.IntN(3) != 0 {
+			if letterOfPod(p) == letter && isDaemonPod(p, def.NS, def.Name) && r.IntN(3) != 0 && p.Name != keep {
 				s.Store.Remove(objKey{KPod, p.Namespace, p.Name}) // e.g. evicted and collected
 				removed++
 			}
@@ -1051,6 +1098,7 @@ func genC05(r *rand.Rand, tier string, idx int) *World {
 	w.Cfg.TemplateEdits = chance(r, 0.2)
 	w.Cfg.NodeChurn = false
 	w.Cfg.AnnotationEdits = true
+	w.Cfg.ModeEdits = chance(r, 0.3)
 	w.Cfg.CLI = true
 	w.Cfg.KubeletFaults = chance(r, 0.6)
 	w.Cfg.Stall = true
@@ -1121,7 +1169,7 @@ func init() {
 // C13: template edit histories, with every third run a failed-canary history (clean-up guards
 // of a failed replica set).
 func init() {
-	hp := histProfile("C13", []string{"C13"}, 1500, 60000, histOpts{maxNodes: 4, pCanary: 0.5, fancy: []float64{0.3, 0.7}, faults: true}, "C13.create", "C13.delete", "C13.podtemplate")
+	hp := histProfile("C13", []string{"C13"}, 1500, 60000, histOpts{maxNodes: 4, pCanary: 0.5, fancy: []float64{0.3, 0.7}, faults: true, someOverrides: true}, "C13.create", "C13.delete", "C13.podtemplate")
 	gen := hp.Gen
 	hp.Gen = func(r *rand.Rand, tier string, idx int) *World {
 		if idx%3 == 2 {
